@@ -155,7 +155,9 @@ type c15cfg struct {
 
 func c15Configs(tier string) []vmc.Cfg {
 	var out []vmc.Cfg
-	for _, op := range []string{"provide", "putvalue"} {
+	// "putvalue-refused": the WAN half holds a better value, so the put of an older one is refused by the WAN
+	// client; a refused write is still a write that was routed to the WAN and must not spill over to the LAN (seed C15-i)
+	for _, op := range []string{"provide", "putvalue", "putvalue-refused"} {
 		for wan := 0; wan < 2; wan++ {
 			for lan := 0; lan < 2; lan++ {
 				out = append(out, vmc.Cfg{Name: fmt.Sprintf("route/%s/wan%d/lan%d", op, wan, lan), Data: c15cfg{part: "route", a: wan, b: lan, s: op}})
@@ -272,6 +274,23 @@ func c15Run(x *vmc.X, cfg vmc.Cfg) {
 			return
 		}
 		done := make(chan error, 1)
+		refused := c.s == "putvalue-refused"
+		if refused {
+			c.s = "putvalue"
+			first := make(chan error, 1)
+			go func() { first <- e.d.PutValue(ctx, vkey, sim.Val(5, "better")) }()
+			firstDone := false
+			if !e.run(func() bool {
+				select {
+				case <-first:
+					firstDone = true
+				default:
+				}
+				return firstDone && len(e.net.PendingEvents()) == 0
+			}, false) {
+				return
+			}
+		}
 		if c.s == "provide" {
 			go func() { done <- e.d.Provide(ctx, pcid, true) }()
 		} else {
